@@ -1,6 +1,7 @@
 package simrt
 
 import (
+	"strconv"
 	"bytes"
 	"encoding/json"
 	"fmt"
@@ -171,7 +172,9 @@ func drawBodyMethod(rt *rapid.T, w *WorldDesc, methods []*MethodDesc, label stri
 var garbageBodies = []string{"", "null", "[]", "123", `"str"`, "{", "}", "{}", `{"a":`, `{"a":1,"a":2}`, "true", "[[[[[[[[[[[[[[[[[[[[[[[[[[[[[[[[", `{"x":1e400}`,
 	"\xff\xfe", `{"\ud800":1}`, "{\"a\":\"\xc3\x28\"}", "\x00", "\x08", "\x0a\xff\xff\xff\xff\x0f", "\x12\x05ab", "\xff\xff\xff\xff\xff\xff\xff\xff\xff\xff\x01", " ", "\n{}\n", "{}{}", `{"":{}}`}
 
-var jsonSwapValues = []string{`"` + strings.Repeat("日", 85) + `"`, `"` + strings.Repeat("é", 127) + `x"`, `"a` + strings.Repeat("日本", 60) + `"`, "null", "1e400", `"str"`, "[]", "{}", "true", "-1", "1.5", `"` + strings.Repeat("x", 300) + `"`, `[[[[[[[[{}]]]]]]]]`, "18446744073709551616", `"18446744073709551616"`, `"NaN"`, `"2024-13-45T99:99:99Z"`, `"@@@"`, "0", `""`}
+var jsonSwapValues = []string{`"` + strings.Repeat("日", 85) + `"`, `"` + strings.Repeat("é", 127) + `x"`, `"a` + strings.Repeat("日本", 60) + `"`, "null", "1e400", `"str"`, "[]", "{}", "true", "-1", "1.5", `"` + strings.Repeat("x", 300) + `"`, `[[[[[[[[{}]]]]]]]]`, "18446744073709551616", `"18446744073709551616"`, `"NaN"`, `"2024-13-45T99:99:99Z"`, `"@@@"`, "0", `""`,
+	// instants outside the Timestamp range (years 1..9999), as seconds and as milliseconds
+	"253402300800", "9223372036854775807", "-62135596801", "253402300800000", "1000000000000000000", "-9223372036854775808"}
 
 // mutateBody applies drawn mutations to a valid body.
 func mutateBody(rt *rapid.T, body []byte, family, label string) []byte {
@@ -726,6 +729,18 @@ func annotatedBodyDefect(w *WorldDesc, msgFQ string, body []byte) string {
 			_, rfcErr := time.Parse(time.RFC3339Nano, str)
 			if kind == "object" || kind == "array" || kind == "bool" || (kind == "string" && !isInt(str) && rfcErr != nil) {
 				return bad("timestamp_format=" + f.TimestampFormat)
+			}
+			if kind == "number" {
+				// a Timestamp covers the years 1..9999: an integer instant outside that range has no value
+				if n, err := strconv.ParseInt(string(t), 10, 64); err == nil {
+					lo, hi := int64(-62135596800), int64(253402300799)
+					if f.TimestampFormat == "UNIX_MILLIS" {
+						lo, hi = lo*1000, hi*1000+999
+					}
+					if n < lo || n > hi {
+						return bad("timestamp_format=" + f.TimestampFormat + " out of range")
+					}
+				}
 			}
 		case f.TimestampFormat == "DATE" || f.TimestampFormat == "RFC3339":
 			if kind != "string" {
